@@ -44,29 +44,34 @@ def get_model(tf, kind, shape):
     return m
 
 
-def build(name, model, kind):
+def build(name, model, kind, cfg=0):
+    """cfg 0: batch_size 4 and small grids; cfg 1: batch_size 7 (several inputs per pass for the sampling methods, N not a
+    multiple of it), Rise with its default grid (larger than some inputs); cfg 2: batch_size None (whole workload at once)"""
     from xplique import attributions as A
+    bs = {0: 4, 1: 7, 2: None}[cfg]
     if name in ("Saliency", "GradientInput", "DeconvNet", "GuidedBackprop"):
-        return getattr(A, name)(model, batch_size=4)
+        return getattr(A, name)(model, batch_size=bs)
     if name == "IntegratedGradients":
-        return A.IntegratedGradients(model, batch_size=4, steps=3)
+        return A.IntegratedGradients(model, batch_size=bs, steps=3)
     if name in ("SmoothGrad", "SquareGrad", "VarGrad"):
-        return getattr(A, name)(model, batch_size=4, nb_samples=3, noise=0.0)
+        return getattr(A, name)(model, batch_size=bs, nb_samples=3, noise=0.0)
     if name in ("GradCAM", "GradCAMPP"):
-        return getattr(A, name)(model, batch_size=4)
+        return getattr(A, name)(model, batch_size=bs)
     if name == "Occlusion":
         p = 2 if kind == "img" else 1
-        return A.Occlusion(model, batch_size=4, patch_size=p, patch_stride=p)
+        return A.Occlusion(model, batch_size=bs, patch_size=p, patch_stride=p)
     if name == "Rise":
-        return A.Rise(model, batch_size=4, nb_samples=6, grid_size=2)
+        if cfg == 1:
+            return A.Rise(model, batch_size=bs, nb_samples=6)
+        return A.Rise(model, batch_size=bs, nb_samples=6, grid_size=2 if cfg == 0 else 3)
     if name == "Lime":
-        return A.Lime(model, batch_size=4, nb_samples=14)
+        return A.Lime(model, batch_size=bs, nb_samples=14)
     if name == "KernelShap":
-        return A.KernelShap(model, batch_size=4, nb_samples=14)
+        return A.KernelShap(model, batch_size=bs, nb_samples=14)
     if name == "Sobol":
-        return A.SobolAttributionMethod(model, grid_size=2, nb_design=4, batch_size=8)
+        return A.SobolAttributionMethod(model, grid_size=2, nb_design=4, batch_size={0: 8, 1: 13, 2: None}[cfg])
     if name == "Hsic":
-        return A.HsicAttributionMethod(model, grid_size=2, nb_design=8, batch_size=8)
+        return A.HsicAttributionMethod(model, grid_size=2, nb_design=8, batch_size={0: 8, 1: 13, 2: None}[cfg])
     raise ValueError(name)
 
 
@@ -108,7 +113,7 @@ def run_case(ctx, d):
         np.random.seed(d["case_seed"] % 997)
         return fn()
 
-    ok, ref = ctx.impl_call(d, lambda: seeded(lambda: build(name, model, kind).explain(x.astype(np.float32), y)),
+    ok, ref = ctx.impl_call(d, lambda: seeded(lambda: build(name, model, kind, d.get("cfg", 0)).explain(x.astype(np.float32), y)),
                             signature="reference-ndarray")
     if not ok:
         ctx.case(d, False)
@@ -119,6 +124,7 @@ def run_case(ctx, d):
     ctx.count("container", cont["kind"] + (":b" if cont.get("batch") else "") + (":wrapped" if cont.get("wrapped") else "")
               + (":" + cont["dtype"] if "dtype" in cont else ""))
     ctx.count("kind", kind)
+    ctx.count("cfg", {0: "bs4", 1: "bs7+default-grid", 2: "bs-none"}[d.get("cfg", 0)])
     doc = [int(v) for v in lean["documented"]]
     ctx.check_prop("documented-shape", list(refn.shape) == doc, d, {"got": list(refn.shape), "documented": doc})
     if lean["shape"] is not None and list(refn.shape) != [int(v) for v in lean["shape"]]:
@@ -137,7 +143,7 @@ def run_case(ctx, d):
     model_ok = all(len(r) == 1 for r in rows) and len(rows) == n
     inp, tgt = make_container(tf, cont, x, y)
     try:
-        out = seeded(lambda: build(name, model, kind)(inp, tgt)).numpy()
+        out = seeded(lambda: build(name, model, kind, d.get("cfg", 0))(inp, tgt)).numpy()
         # "identical" up to float32 re-association: TF's multi-threaded kernels may split reductions differently
         # from run to run (observed under heavy machine load), so bitwise equality is not demanded
         # (Grad-CAM++ divides by 2G^2 + G^3*mean(A), which can nearly cancel and amplify a one-ulp difference)
@@ -152,7 +158,7 @@ def run_case(ctx, d):
         ctx.corr_failures.append(("sanitize_model", d, {"impl_same": same, "model_same": model_ok}))
     ctx.check_prop("dataset-container" if cont["kind"] == "dataset" else "array-container", same, d, detail, signature=sig)
     if d.get("check_call"):
-        ok, e2 = ctx.impl_call(d, lambda: seeded(lambda: build(name, model, kind)(x.astype(np.float32), y)).numpy())
+        ok, e2 = ctx.impl_call(d, lambda: seeded(lambda: build(name, model, kind, d.get("cfg", 0))(x.astype(np.float32), y)).numpy())
         if ok:
             ctx.check_prop("call-is-explain", e2.shape == refn.shape and bool(np.allclose(e2, refn, rtol=1e-5, atol=1e-6 * max(1.0, float(np.abs(refn).max())))),
                            d, {"maxdiff": float(np.max(np.abs(e2 - refn))) if e2.shape == refn.shape else None})
@@ -184,7 +190,7 @@ def gen_cases(ctx):
             else:
                 pool = [s for s in img_shapes if s[2] in (1, 3)] if name in ("Lime", "KernelShap") else img_shapes
                 shape = pool[int(rng.integers(len(pool)))]
-            n = int(rng.choice([1, 2, 3, 5]))
+            n = int(rng.choice([1, 2, 3, 5, 6, 9]))
             cont = dict(containers[(j + int(rng.integers(len(containers)))) % len(containers)])
             if cont.get("batch") == "b":
                 # favour several batches of >= 2 samples (+ remainder): where a wrong un-batching order shows
@@ -194,7 +200,8 @@ def gen_cases(ctx):
                 else:
                     cont["batch"] = int(rng.integers(1, n + 2))
             cases.append({"method": name, "kind": kind, "shape": list(shape), "N": n, "container": cont,
-                          "check_call": bool(j % 3 == 0), "case_seed": int(rng.integers(1 << 31))})
+                          "check_call": bool(j % 3 == 0), "cfg": int((j // 3) % 3) if j >= 3 else int(rng.integers(3)),
+                          "case_seed": int(rng.integers(1 << 31))})
     # every method sees the known-finding container at least once in thorough runs only (slow: it raises / reshapes)
     return cases
 
